@@ -15,6 +15,9 @@ pub const HTML_FRAGS: &[&str] = &[
     // ordinary tags
     "<div>", "</div>", "<p>", "</p>", "<span>", "</span>", "<b>", "</b>", "<i>", "<a href=x>", "</a>", "<DIV>", "</DIV>", "<Div id=1>",
     "<br>", "<br/>", "<img src=a>", "<input>", "<hr>", "<wbr>", "<meta charset=utf-8>", "<link rel=x>",
+    // charset declarations in both syntaxes, incl. labels of encodings lol-html must refuse
+    "<meta charset=windows-1252>", "<meta charset=utf-16le>", "<meta charset=\"Shift_JIS\">", "<meta http-equiv=Content-Type content=\"text/html; charset=utf-16\">", "<meta http-equiv=\"content-type\" content='text/html;charset=iso-2022-jp'>",
+    "<meta http-equiv=content-type content=\"text/html; charset=windows-1251\">", "<meta content=\"text/html; charset=utf-16be\" http-equiv=Content-Type>", "<meta http-equiv=refresh content=\"charset=utf-16\">", "<meta charset=replacement>", "<meta http-equiv=Content-Type content=\"charset=x-user-defined\">",
     "<custom-element>", "</custom-element>", "<averyveryverylongtagname>", "</averyveryverylongtagname>", "<x1>", "<h1>", "</h1>",
     "<ul>", "<li>", "</li>", "</ul>", "<body>", "<html>", "<head>", "</head>", "</body>", "</html>",
     // attribute syntax corner cases
@@ -30,7 +33,7 @@ pub const HTML_FRAGS: &[&str] = &[
     // select / template / frameset / table
     "<select>", "</select>", "<option>", "</option>", "<optgroup>", "<template>", "</template>", "<frameset>", "</frameset>", "<frame>", "<table>", "</table>", "<tr>", "<td>", "</td>", "<tbody>", "<caption>", "<keygen>", "<textarea></textarea>", "<select><option>",
     // esi-ish
-    "<esi:include src=a/>", "<esi:remove>", "</esi:remove>",
+    "<esi:include src=a/>", "<esi:remove>", "</esi:remove>", "<esi:include>", "<esi:comment text=x>", "<esi:include src=x />", "</esi:include>",
 ];
 
 pub const FOREIGN_FRAGS: &[&str] = &[
